@@ -180,8 +180,39 @@ func c19EmitReadFree(t thrift.Type, in []byte, strbin, i8 bool) {
 	out.emit(1928, fields...)
 }
 
+// fixed shapes through which the options of ReadAny must reach every nested string / byte
+func genC19FreeOptionShapes(r *rng) {
+	str := &Ty{K: thrift.STRING}
+	byt := &Ty{K: thrift.I08}
+	shapes := []*Ty{
+		{K: thrift.MAP, Key: str, Elem: str},
+		{K: thrift.MAP, Key: str, Elem: byt},
+		{K: thrift.MAP, Key: str, Elem: &Ty{K: thrift.LIST, Elem: str}},
+		{K: thrift.MAP, Key: &Ty{K: thrift.I32}, Elem: str},
+		{K: thrift.MAP, Key: &Ty{K: thrift.I08}, Elem: byt},
+		{K: thrift.MAP, Key: &Ty{K: thrift.DOUBLE}, Elem: str},
+		{K: thrift.MAP, Key: &Ty{K: thrift.BOOL}, Elem: &Ty{K: thrift.SET, Elem: byt}},
+		{K: thrift.MAP, Key: &Ty{K: thrift.LIST, Elem: str}, Elem: byt},
+		{K: thrift.LIST, Elem: &Ty{K: thrift.MAP, Key: str, Elem: str}},
+		{K: thrift.SET, Elem: str},
+		{K: thrift.LIST, Elem: &Ty{K: thrift.LIST, Elem: byt}},
+		{K: thrift.STRUCT, Name: "O", Fields: []*Fld{{ID: 1, Name: "a", T: &Ty{K: thrift.MAP, Key: str, Elem: str}}, {ID: 2, Name: "b", T: byt}, {ID: 3, Name: "c", T: str}}},
+	}
+	g := newTgen(r.fork())
+	for _, t := range shapes {
+		for k := 0; k < 2; k++ {
+			v := g.genValue(t, 0)
+			b := v.encode(nil)
+			for o := 0; o < 4; o++ {
+				c19EmitReadFree(t.K, b, o&1 != 0, o&2 != 0)
+			}
+		}
+	}
+}
+
 func genC19AnyFree(r *rng, n int) {
-	rounds := 20 + n/60
+	genC19FreeOptionShapes(r.fork())
+	rounds := 40 + n/15
 	for i := 0; i < rounds; i++ {
 		g := newTgen(r.fork())
 		g.maxDepth = 3
